@@ -16,7 +16,7 @@ func vxlibStore(b *vxBox, v int) { b.v = v }
 func vxlibLoad(b *vxBox) int { return b.v }
 
 // VxSelfRace: kind 0 store-then-go (ordered), 1 unordered store/load, 2 ordered by an
-// unbuffered channel, 3 protected by a mutex, 4 ordered only by lock order (not reported: critical sections keep their recorded order)
+// unbuffered channel, 3 protected by a mutex, 4 the reader takes the lock first in the default schedule, so lock order does not order the write before the read: a race
 func VxSelfRace() {
 	kind := vxGet("kind")
 	b := &vxBox{}
@@ -51,7 +51,7 @@ func VxSelfRace() {
 		}
 	})
 	n := vxRaceAnalyseAll()
-	want := map[int]int{0: 0, 1: 1, 2: 0, 3: 0, 4: 0}[kind]
+	want := map[int]int{0: 0, 1: 1, 2: 0, 3: 0, 4: 1}[kind]
 	vxAssert(n == want, "selftest.race-count")
 	vxReach("done")
 }
